@@ -7,3 +7,18 @@ import "net/http"
 // VerifHandler exposes the fully configured router (all middleware and routes) so that the
 // /verif harness can serve requests in-process.  Overlay-only; not part of the product.
 func (ws *WebService) VerifHandler() http.Handler { return ws.echo }
+
+// VerifRoute is one registered route.
+type VerifRoute struct {
+	Method string `json:"method"`
+	Path   string `json:"path"`
+}
+
+// VerifRoutes lists every route of the router.
+func (ws *WebService) VerifRoutes() []VerifRoute {
+	var out []VerifRoute
+	for _, r := range ws.echo.Routes() {
+		out = append(out, VerifRoute{Method: r.Method, Path: r.Path})
+	}
+	return out
+}
